@@ -60,6 +60,7 @@ package auditd
 //@   ensures[nonnil] result != nil
 //@   assert_at (*sessionTracker).DeleteUsersWithoutLoginsBefore[cutoff] t == aMinuteAgo && t == clock - 60000000000
 //@   assert_at (*sessionTracker).DeleteRemoteUserLoginsBefore[cutoff] t == aMinuteAgo && t <= clock - 60000000000
+//@   loop Read#1 invariant[causal] Causal(tracker)
 //@   loop Read#1 invariant[inv] tracker != nil && TrackerInv(tracker) && staleDataTicker != nil && tickperiod(staleDataTicker) == 60000000000
 //@   loop Read#1 invariant[chans] reassembler != nil && fresh(parseAuditLogsDone) && (o.Logins == nil || old(alloc(o.Logins)))
 //@   loop Read#1 invariant[cap] chancap(parseAuditLogsDone) == 1
